@@ -2,7 +2,7 @@
     stay Coq datatypes; no Extract Constant). Run coqc from the ocaml/ directory. *)
 Require Extraction.
 Require Import ExtrOcamlBasic.
-From IAVL Require Import Bytes Varint Sha256 Tree VMap MTree KV Iter ExportImport Codec Diff Store Ics23 VersionFacts PruneAlgo FastLife Discover Crash DbImage Memo NodeCache Flusher PhysCommit.
+From IAVL Require Import Bytes Varint Sha256 Tree VMap MTree KV Iter ExportImport Codec Diff Store Ics23 VersionFacts PruneAlgo FastLife Discover Crash DbImage Memo NodeCache Flusher PhysCommit Legacy LegacyStore.
 
 Definition m_step := MTree.step sha256.
 Definition m_init := MTree.init_state.
@@ -19,6 +19,7 @@ Definition fstep_sha := FastLife.fstep sha256.
 Definition commit_node_ops_sha := Store.commit_node_ops sha256.
 Definition memo_step_sha := Memo.memo_step sha256.
 Definition commit_bops_sha := PhysCommit.commit_bops sha256.
+Definition legacy_history_sha := LegacyStore.legacy_history sha256.
 
 Extraction "model.ml" m_step m_init bcmp sha256 uvarint_enc uvarint_dec varint_enc varint_dec
   bytes_enc bytes_dec be_enc be_dec
@@ -35,4 +36,4 @@ Extraction "model.ml" m_step m_init bcmp sha256 uvarint_enc uvarint_dec varint_e
   commit_node_ops_sha Crash.recover Crash.image Store.rollback_ops Store.rebuild_ops Store.apply_ops
   DbImage.encode_image DbImage.decode_image
   memo_step_sha Memo.memo_init
-  NodeCache.coherentb NodeCache.stale_keys Flusher.segs Flusher.fl_batches Flusher.cut_positions commit_bops_sha.
+  NodeCache.coherentb NodeCache.stale_keys Flusher.segs Flusher.fl_batches Flusher.cut_positions commit_bops_sha legacy_history_sha.
